@@ -19,6 +19,27 @@ import time
 
 MARKER_RA_DEG = 7.0      # a record with this right ascension makes the injected worker fault fire
 
+# Keywords of the creation entry points that are NOT part of the input: they choose the code path (progress display
+# wraps the chunk iterator and the patch iterator; degrees selects the unit conversion; the chunk size argument may
+# be omitted or exceed the input; patch_num + probe_size make a first pass over the reader), never the outcome.
+DEFAULT_OPTS = {"progress": False, "degrees": True, "cs_pass": "same", "probe_size": -1}
+
+
+def opts_of(spec):
+    o = dict(DEFAULT_OPTS)
+    o.update(spec.get("opts") or {})
+    return o
+
+
+def chunksize_arg(spec):
+    """the chunksize keyword as passed; spec['cs'] is always the EFFECTIVE chunk size (one chunk when the keyword is
+    omitted or larger than the input)"""
+    how = opts_of(spec)["cs_pass"]
+    if how == "same":
+        return spec["cs"]
+    assert spec["cs"] >= spec["n"], spec
+    return None if how == "none" else spec["n"] + 3
+
 
 # ----------------------------------------------------------------------------- inputs
 def centres(ncent):
@@ -265,13 +286,35 @@ def install_injection(spec):
         cc.CatalogWriter.finalize = finalize
 
 
+def faulty_generator(yaw, spec):
+    """BoxRandoms whose draw number `chunk` after the last reseed fails like a source that cannot be read (the reader
+    reseeds when the iteration starts, so draw k is chunk k)"""
+    class FaultyBox(yaw.randoms.BoxRandoms):
+        fail_at = spec["fault"]["chunk"]
+
+        def reseed(self, seed=None):
+            self.draws = 0
+            return super().reseed(seed)
+
+        def _draw_coords(self, probe_size):
+            k = self.draws
+            self.draws += 1
+            if k == self.fail_at:
+                raise OSError("injected fault in the random generator (reader), draw %d" % k)
+            return super()._draw_coords(probe_size)
+
+    return FaultyBox(*random_window(spec["ncent"]), seed=spec["dseed"])
+
+
 def create(spec, yaw):
     import numpy as np
     import pandas as pd
     cols, near, cent = make_input(spec)
     cols = apply_fault(spec, cols)
     f = spec["fault"]
-    kw = dict(overwrite=spec["overwrite"], max_workers=spec["workers"], chunksize=spec["cs"], progress=False)
+    o = opts_of(spec)
+    kw = dict(overwrite=spec["overwrite"], max_workers=spec["workers"], chunksize=chunksize_arg(spec),
+              progress=bool(o["progress"]))
     cent_used = list(cent)
     if spec["patch"] == "centers":
         if spec["empty_centre"]:
@@ -280,6 +323,9 @@ def create(spec, yaw):
         kw["patch_centers"] = yaw.AngularCoordinates(np.deg2rad(np.asarray(cent_used, dtype="f8")))
     elif spec["patch"] == "name":
         kw["patch_name"] = "pid"
+    elif spec["patch"] == "num":
+        kw["patch_num"] = spec["ncent"]
+        kw["probe_size"] = o["probe_size"]
     elif spec["patch"] == "none":
         pass
     else:
@@ -287,10 +333,17 @@ def create(spec, yaw):
     if spec["source"] == "random":
         # the window hugs the real centres (+-6 deg), so that no random point can be nearer to the extra,
         # far-away centre of the empty-centre scenario than to a real one
-        gen = yaw.randoms.BoxRandoms(*random_window(spec["ncent"]), seed=spec["dseed"])
+        if f["kind"] == "genfail":
+            gen = faulty_generator(yaw, spec)
+        else:
+            gen = yaw.randoms.BoxRandoms(*random_window(spec["ncent"]), seed=spec["dseed"])
         kw.pop("patch_name", None)
         return yaw.Catalog.from_random(spec["cache"], gen, spec["n"], **kw)
     kw.update(ra_name="ra", dec_name="dec")
+    if not o["degrees"]:
+        # the same input handed over in radians (the stored records have to be bit-identical)
+        cols = dict(cols, ra=np.deg2rad(cols["ra"]), dec=np.deg2rad(cols["dec"]))
+        kw["degrees"] = False
     if spec["weights"]:
         kw["weight_name"] = "w"
     if spec["redshifts"]:
